@@ -276,7 +276,9 @@ func (m *Machine) build2(s *Stage2, holeSorts map[string]string, importPath stri
 		return
 	}
 	s.TPkg = tpkg2
+	progMu.Lock()
 	sp := m.Prog.CreatePackage(tpkg2, []*ast.File{f, pf2}, info2, false)
+	progMu.Unlock()
 	sp.Build()
 	s.Pkg = sp
 	m.s2byPkg.Store(sp, s)
